@@ -31,6 +31,7 @@ func (m model) sorted() []vItem {
 }
 
 type c03Stats struct {
+	K, L, P    int
 	Sequences  int      `json:"sequences"`
 	Shapes     int      `json:"distinct_tree_shapes"`
 	ScanChecks int      `json:"scan_checks"`
@@ -68,11 +69,13 @@ func checkBalance(t *BTree) error {
 	var walk func(n *node, depth int, isRoot bool) error
 	walk = func(n *node, depth int, isRoot bool) error {
 		count += len(n.items)
-		if len(n.items) > t.maxItems() {
-			return fmt.Errorf("node with %d items > max %d", len(n.items), t.maxItems())
+		// degree bounds of a B-tree of minimum degree d: non-root nodes hold d-1 .. 2d-1 items (stated here, not
+		// taken from the code under test)
+		if len(n.items) > 2*t.degree-1 {
+			return fmt.Errorf("node with %d items > max %d", len(n.items), 2*t.degree-1)
 		}
-		if !isRoot && len(n.items) < t.minItems() {
-			return fmt.Errorf("non-root node with %d items < min %d", len(n.items), t.minItems())
+		if !isRoot && len(n.items) < t.degree-1 {
+			return fmt.Errorf("non-root node with %d items < min %d", len(n.items), t.degree-1)
 		}
 		if isRoot && len(n.items) == 0 && len(n.children) > 0 {
 			return fmt.Errorf("empty inner root kept")
@@ -254,10 +257,11 @@ func runSeq(degree int, seq []op, K int) error {
 }
 
 func TestZZBoundedC03(t *testing.T) {
-	K, L, P := 5, 5, 7
+	K, L, P := 4, 5, 6
 	if os.Getenv("C03_THOROUGH") != "" {
-		K, L, P = 6, 6, 8
+		K, L, P = 5, 5, 7
 	}
+	stats.K, stats.L, stats.P = K, L, P
 	fail := func(degree int, seq []op, err error) {
 		stats.Failure = fmt.Sprintf("degree %d, sequence %v: %v", degree, seq, err)
 	}
